@@ -1,7 +1,7 @@
 (* C11 -- uses_storage_type never under-reports a storage the stream touches
    Property theorems only: each proof is one application of a lemma proved in Proofs/, followed by Print Assumptions. *)
 From Coq Require Import ZArith List Bool.
-From CS Require SchedProofs UsesProofs ExecBudget RevConv RevBridge4.
+From CS Require SchedProofs UsesProofs ExecBudget RevConv RevBridge4 DiskUses.
 From CS Require Import Actions NAdvance Multistage Exec Sched RunFacts Projections BasicInv MultistageRun AllocTotal TLBridge MixBridge.
 Import ListNotations.
 Open Scope Z_scope.
@@ -42,7 +42,26 @@ Proof. exact (@ExecBudget.revolve_touch_uses). Qed.
 Print Assumptions C11_revolve_touch_uses.
 End M_C11_revolve_touch_uses.
 
-(* PARTIAL (DiskRevolve, PeriodicDiskRevolve, HRevolve): class-independent fact about the reference executor -- on any error-free monitored run the store sizes stay within the declared budgets and an action touching RAM / DISK is accepted only if that budget is positive; for the three classes named, error-freeness is not proved (D8), so touched => uses rests on correspondence + oracle *)
+(* DiskRevolve and PeriodicDiskRevolve with at least one RAM snapshot (snapshots_in_ram = 0 is accepted for max_n = 1 only), every history (requests, finalize calls, Run loops in any order): RAM and DISK are reported as used at every observation, so whatever an action touches is reported as used *)
+Module M_C11_disk_touch_uses.
+Import DiskUses.
+Theorem C11_disk_touch_uses :
+  forall (kd : RevConv.rkind) (N ram disk uf ub0 wd rd : Z) (p : Exec.xparams) 
+           (ops : list Sched.op) (o0 : Sched.obs) (m : Sched.mon) (ls : list Sched.line),
+         kd = RevConv.KDiskRevolve \/ kd = RevConv.KPeriodic ->
+         1 <= ram ->
+         Sched.run_case (Sched.PRev kd N ram disk uf ub0 wd rd) p ops = Actions.Ok (o0, m, ls) ->
+         Forall ExecBudget.touch_uses_line ls /\
+         Forall
+           (fun l : Sched.line =>
+            match l with
+            | Sched.LNext _ ob | Sched.LFin _ ob => Sched.o_ur ob = Sched.UTrue /\ Sched.o_ud ob = Sched.UTrue
+            end) ls.
+Proof. exact (@DiskUses.disk_touch_uses). Qed.
+Print Assumptions C11_disk_touch_uses.
+End M_C11_disk_touch_uses.
+
+(* PARTIAL (HRevolve; DiskRevolve / PeriodicDiskRevolve with snapshots_in_ram = 0): class-independent fact about the reference executor -- on any error-free monitored run the store sizes stay within the declared budgets and an action touching RAM / DISK is accepted only if that budget is positive; for HRevolve error-freeness is not proved (D8), so touched => uses rests on correspondence + oracle *)
 Module M_C11_touch_needs_budget_partial.
 Import ExecBudget.
 Theorem C11_touch_needs_budget_partial :
